@@ -61,6 +61,12 @@ items += [
                  ('frame', 'final(available_out)@.dom() =~= old(available_out)@.dom() && final(memory_out)@.dom() =~= old(memory_out)@.dom()')]},
     {'file': AV, 'item': 'fn rule_expand_address_for_load', 'fn': 'rule_expand_address_for_load', 'attrs': 'drop',
      'body_start': ['proof { axiom_register_key_model(); }'],
+     'anchors': [{'at': 'available_out.insert(', 'where': 'before', 'nth': 0,
+                  'lines': ['proof {   // 32-bit address arithmetic: (entry + off) + imm == entry + (off + imm), all wrapped',
+                            '    let o = *off as int; let i = load.imm.sdata().sval() as int;',
+                            '    lemma_wrap_small(o + i);',
+                            '    assert forall|e: int| wrap32(#[trigger] wrap32(e + o) + i) == wrap32(e + wrap32(o + i)) by { lemma_wrap_arith(e, o, i); }',
+                            '}']}],
      'ensures': [('sound', 'forall|pre: St, post: St, c: Ctx| wf_state(pre, c) && wf_state(post, c) && lw_premise(*node, pre, post) '
                            '&& sound_regs(available_in@, pre, c, true) && sound_regs(old(available_out)@, post, c, false) '
                            '==> sound_regs(final(available_out)@, post, c, false)'),
